@@ -108,7 +108,7 @@ theorem KK.keepN {act : Option EvId} {s S : KS} {κ : Kern} {p0 n0 : Nat} (h : K
 
 theorem tmEntries_upd_notin {keys : List Nat} {seq : Nat} (h : seq ∉ keys) (tph : Nat → TPh) (ph : TPh) :
     tmEntries keys (upd tph seq ph) = tmEntries keys tph :=
-  tmEntries_congr fun seq' hs => upd_ne _ _ _ _ (fun e => h (e ▸ hs))
+  tmEntries_congr fun _ hs => upd_ne _ _ _ _ (fun e => h (e ▸ hs))
 
 theorem tmEntries_upd_perm {keys : List Nat} {seq : Nat} (hk : seq ∈ keys) (hn : keys.Nodup) (tph : Nat → TPh) (ph : TPh) :
     (tmEntries keys (upd tph seq ph) ++ (tph seq).entries).Perm (tmEntries keys tph ++ ph.entries) := by
